@@ -143,6 +143,16 @@ void spec_P(uint64_t x[5], unsigned first_round)
     x[3] = r->out[3]; x[4] = r->out[4];
 }
 
+/* canonical input of the most recent implementation-side permutation call */
+int ls_last_input(uint64_t x[5])
+{
+    ls_rec_t *r;
+    if (ls_n_impl == 0) return 0;
+    r = ls_get(ls_n_impl - 1);
+    x[0] = r->in[0]; x[1] = r->in[1]; x[2] = r->in[2]; x[3] = r->in[3]; x[4] = r->in[4];
+    return 1;
+}
+
 /* the model must have consumed every call the code made, except trailing
  * calls whose result the code discards (allowed = number of such calls) */
 void ls_done_allow(unsigned allowed_trailing)
